@@ -24,6 +24,9 @@ def setup():
         print("[setup] optional c18_wsfuzz.fuzz not built: %s" % str(e)[:300])
 
 
+# an I/O thread killed by the known length_error finding is never joined (the harness process stops
+# serving and exits): not a leak of interest
+TSAN_ENV = {"TSAN_OPTIONS": "report_thread_leaks=0"}
 RACE_KINDS = ["server:peer-close", "server:app-sendClose", "client:peer-close", "client:app-sendClose", "client:app-disconnect"]
 
 
@@ -80,7 +83,7 @@ def run_shard(ctx, binary, sh):
         rounds += 1
         out = os.path.join(ctx.tmp, "%s.%d.jsonl" % (sh.tag, rounds))
         rr = vf.run_harness(binary, sh.args() + ["--cases", path, "--seed", ctx.seed, "--from", cur, "--out", out] + sh.extra,
-                            timeout=sh.timeout, out_file=out)
+                            timeout=sh.timeout, out_file=out, env_extra=TSAN_ENV)
         try:
             os.unlink(out)
         except OSError:
@@ -258,9 +261,21 @@ def judge_valid(st, ob, mode):
     return v
 
 
+def _wrap_length_in(wire):
+    """does the byte string contain a 64-bit length field in the wrap range [2^64-16, 2^64-1]?"""
+    i = wire.find(b"\xff" * 7)
+    while i >= 1:
+        if i + 7 < len(wire) and wire[i + 7] >= 0xF0 and (wire[i - 1] & 0x7F) == 127:
+            return True
+        i = wire.find(b"\xff" * 7, i + 1)
+    return False
+
+
 def judge_hostile(st, ob, mode, rec):
     side = "server" if st.side == "s" else "client"
     cls = st.hclass
+    if st.kind == "m" and _wrap_length_in(st.wire):
+        cls = "len-2^64-k"      # the mutation produced a length in the wrap range: that is the failing input class
     v = []
     thrown = ob.get("thrown") or []
     if ob.get("exc"):
